@@ -127,11 +127,9 @@ func (r *recorder) callback(ev, kind string, i int, tmpl []string, n *Node, arg 
 	seen := other
 	self := addrAt(r.root, r.schema, dp)
 	isPrimTest := n.K == "prim" && ev == "test"
-	if ev == "pre" {
-		// a Preprocess function over strings is given the input string itself
-		if _, ok := arg.(string); ok {
-			class = "val"
-		}
+	if _, isStr := arg.(string); ev == "pre" && isStr {
+		// a Preprocess function over strings (Parse) is given the input string itself
+		class = "val"
 		seen = 0
 	} else if isPrimTest {
 		// primitive TestFuncs get the value itself
@@ -149,7 +147,7 @@ func (r *recorder) callback(ev, kind string, i int, tmpl []string, n *Node, arg 
 		}
 		if class == "self" {
 			switch n.K {
-			case "prim", "custom":
+			case "prim", "custom", "pre":
 				seen = abstractVal(rv.Elem().Interface())
 			case "slice":
 				seen = rv.Elem().Len()
